@@ -5,6 +5,7 @@
 package main
 
 import (
+	"strings"
 	"encoding/json"
 	"fmt"
 	"io/ioutil"
@@ -262,6 +263,9 @@ func replayOne(ti int, tr mbt.Trace, rep *mbt.Report) {
 				rep.Count("real_start_probes")
 				if perr != nil {
 					pseudoFail = "RealStart"
+					if strings.Contains(perr.Error(), "Start() blocked") {
+						pseudoFail = "RealStartBlocked"
+					}
 					pseudoDetail = "real Start() on a copy of the node directory failed: " + perr.Error()
 				} else {
 					cr, cs := mbt.Canon(real).(map[string]interface{}), mbt.Canon(sync).(map[string]interface{})
